@@ -194,6 +194,12 @@ def store_helper(ctx, name):
 
 def check(ctx, rep):
     fb = ctx.fb
+    # "keep the stream in step" on the read-based path: the client takes exactly the header's
+    # bytes from the caller's reader - 4, then 1 more only behind the marker - and nothing else
+    # (C11's reader obligations for the Wrath server-header readers, necessary here)
+    from rules import c11
+    if not isinstance(rep, util.Refile):        # (C11 re-files this module's layout rules: no ping-pong)
+        c11.check(ctx, util.Refile(rep, "stream-step", keep_rules={"reader"}, fn_pred=lambda f: "wrath_header" in f and "server_header" in f))
     # ------------------------------------------------------------------ encoder
     fn = ENC + "::encrypt_server_header"
     se = ctx.pure.run(fn)
